@@ -69,6 +69,13 @@ type Cmd struct {
 	Op        string `json:"op"`
 	V         uint64 `json:"v,omitempty"`         // validator (lookup, auction, bid, fwd, unblind)
 	NoAcc     bool   `json:"noacc,omitempty"`     // lookup: the account argument is nil
+	// auction, bid: the slot the block space is auctioned for (0: slot 100).  Requests arrive for slots in
+	// any order (a beacon node that is syncing or far behind asks for old slots); the answer does not
+	// depend on the slot
+	Slot uint64 `json:"slot,omitempty"`
+	// lookup, auction: the account knows its wallet (e2wtypes.AccountWalletProvider), so its name in the
+	// configuration's account expressions is "wallet-c12/account-v" instead of "<unknown>/account-v"
+	Wallet bool `json:"wallet,omitempty"`
 	Gate      bool   `json:"gate,omitempty"`      // hold the request inside ProposerConfig until released
 	Acc       string `json:"acc,omitempty"`       // refresh: accounts provider: "" (accounts) | err | none
 	Fetch     string `json:"fetch,omitempty"`     // refresh: ok | err | malformed
@@ -120,7 +127,7 @@ type script struct {
 	acc       string // "", err, none
 	many      int    // registration round: accounts per validator
 	fetch     func() ([]byte, error)
-	account   *acct
+	account   e2wtypes.Account
 	bidFee    *uint64 // set by the builder-bid provider: id of the fee recipient it was asked with
 	bidCalled bool
 	forwarded atomic.Int64 // registrations handed to the relay on behalf of this request
@@ -332,7 +339,7 @@ func docJSON(d *Doc) []byte {
 		}
 		for v := uint64(0); v <= nValidators; v++ {
 			if !bad[v] {
-				fmt.Fprintf(&b, `%s{"proposer":"<unknown>/account-%d(-[0-9]+)?","fee_recipient":"%s"}`, sep, v, docFee(d.ID))
+				fmt.Fprintf(&b, `%s{"proposer":"(<unknown>|wallet-c12)/account-%d(-[0-9]+)?","fee_recipient":"%s"}`, sep, v, docFee(d.ID))
 				sep = ","
 			}
 		}
@@ -458,6 +465,9 @@ func (r *runner) spawn(ctx context.Context, c Cmd, repeat int) {
 		if !accountless(c) {
 			th.account = newAcct(c.V, c.Gate)
 			sc.account = th.account
+			if c.Wallet {
+				sc.account = walletAcct{th.account}
+			}
 		}
 	case "refresh":
 		switch c.Fetch {
@@ -500,10 +510,17 @@ func (r *runner) spawn(ctx context.Context, c Cmd, repeat int) {
 		}
 		for i := 0; i < repeat; i++ {
 			for k := uint64(0); k < uint64(many); k++ {
-				account := th.account
-				if k > 0 {
-					account = newAcct(c.V, false)
-					account.k = k
+				var account e2wtypes.Account
+				if th.account != nil {
+					a := th.account
+					if k > 0 {
+						a = newAcct(c.V, false)
+						a.k = k
+					}
+					account = a
+					if c.Wallet {
+						account = walletAcct{a}
+					}
 				}
 				if accountless(c) {
 					answer(r.accountlessRequest(tctx, sc, c, number, i))
@@ -520,7 +537,7 @@ func (r *runner) spawn(ctx context.Context, c Cmd, repeat int) {
 				case "auction":
 					sc.account = account
 					sc.bidCalled, sc.bidFee = false, nil
-					_, err := r.svc.AuctionBlock(tctx, phase0.Slot(100+i), phase0.Hash32{byte(c.V)}, pubkeyOfK(c.V, k))
+					_, err := r.svc.AuctionBlock(tctx, slotOf(c, i), phase0.Hash32{byte(c.V)}, pubkeyOfK(c.V, k))
 					switch {
 					case err != nil:
 						answer("RErr")
@@ -774,6 +791,9 @@ func (g *genState) accountless(v uint64) {
 	switch g.r.Intn(4) {
 	case 1:
 		c = Cmd{Op: "bid", V: v}
+		if !g.s.Stress {
+			c.Slot = g.slot()
+		}
 	case 2:
 		c = Cmd{Op: "fwd", V: v}
 	case 3:
@@ -781,6 +801,14 @@ func (g *genState) accountless(v uint64) {
 	}
 	g.add(c)
 	g.tags["accountless"] = true
+}
+
+// slots in no particular order, more than the bid cache's horizon (32 slots) apart
+func (g *genState) slot() uint64 {
+	if g.r.Chance(1, 2) {
+		return 0
+	}
+	return []uint64{40, 100, 101, 180, 300, 1000}[g.r.Intn(6)]
 }
 
 func (g *genState) reader(gate bool) {
@@ -792,7 +820,11 @@ func (g *genState) reader(gate bool) {
 	if g.r.Chance(2, 5) {
 		op = "auction"
 	}
-	k := g.add(Cmd{Op: op, V: uint64(g.r.Range(1, nValidators)), Gate: gate})
+	c := Cmd{Op: op, V: uint64(g.r.Range(1, nValidators)), Gate: gate, Wallet: g.r.Chance(1, 3)}
+	if op == "auction" && !g.s.Stress {
+		c.Slot = g.slot()
+	}
+	k := g.add(c)
 	if gate {
 		g.openGates = append(g.openGates, k)
 		g.tags["gated-"+op] = true
@@ -925,7 +957,7 @@ func gen(r *Rand, search bool) Scenario {
 			}
 			reg := r.Chance(1, 2)
 			for w := 0; w < workers; w++ {
-				c := Cmd{Op: "lookup", V: uint64(r.Range(1, nValidators)), Many: many, NoSettle: true}
+				c := Cmd{Op: "lookup", V: uint64(r.Range(1, nValidators)), Many: many, NoSettle: true, Wallet: r.Chance(1, 3)}
 				if r.Chance(2, 5) {
 					c.Op = "auction"
 				}
